@@ -68,6 +68,20 @@ class Observation:
                 self.reparse(alt)
                 if not self.problem and self.responses and not any(r.get(b"x-call") for r in self.responses[-1:]):
                     return self
+        # requests the reference could not delimit (everything behind a message whose framing it cannot know) have no known method:
+        # one of them may have been a HEAD request
+        for k in range(len(methods), len(methods) + 4):
+            alt = list(methods) + [None] * (k - len(methods)) + [b"HEAD"]
+            self.reparse(alt)
+            if not self.problem:
+                return self
+        for k in range(len(methods)):
+            if methods[k] is None:
+                alt = list(methods)
+                alt[k] = b"HEAD"
+                self.reparse(alt)
+                if not self.problem:
+                    return self
         return self.reparse(methods)
 
     def summary(self):
